@@ -46,6 +46,7 @@ type Choices struct {
 	UPFIP       [][]byte
 	AmbrDL, AmbrUL int64
 	QosRulesLen int
+	SessAmbr    []byte // Session-AMBR contents of the accept (unit DL, value DL, unit UL, value UL); nil = 1000 Mbps both ways
 	AcceptOpt   uint // optional IEs of PDU SESSION ESTABLISHMENT ACCEPT in front of the PDU address: bit0 5GSM cause
 	PerUE       int  // how the 5G-AKA vector varies from UE to UE: 0 fresh RAND, same SQN; 1 same RAND, SQN+k; 2 fresh RAND, SQN+k; 3 same RAND, same SQN
 }
@@ -971,7 +972,11 @@ func (a *AMF) setupRequest(u *UE) []byte {
 	copy(rules, []byte{0x01, 0x00, 0x06, 0x31, 0x31, 0x01, 0x01, 0xff, 0x09})
 	acc := []byte{0x2e, u.PSI, u.PTI, 0xc2, 0x11, byte(len(rules) >> 8), byte(len(rules))}
 	acc = append(acc, rules...)
-	acc = append(acc, 0x06, 0x06, 0x03, 0xe8, 0x06, 0x03, 0xe8) // session AMBR 1000 Mbps
+	if len(a.Ch.SessAmbr) == 6 {
+		acc = append(append(acc, 0x06), a.Ch.SessAmbr...)
+	} else {
+		acc = append(acc, 0x06, 0x06, 0x03, 0xe8, 0x06, 0x03, 0xe8) // session AMBR 1000 Mbps
+	}
 	if a.Ch.AcceptOpt&1 != 0 {
 		acc = append(acc, 0x59, 0x32) // 5GSM cause #50 "PDU session type IPv4 only allowed"
 	}
